@@ -114,12 +114,44 @@ def twin(f):
     return g
 
 
+def decoy(f):
+    """A function declaring f's positional-or-keyword parameters in reverse order, followed by one of its own."""
+    sig = inspect.signature(f)
+    pok = [p for p in sig.parameters.values() if p.kind == p.POSITIONAL_OR_KEYWORD]
+    rest = [p for p in sig.parameters.values() if p.kind != p.POSITIONAL_OR_KEYWORD]
+    parts = []
+    for p in rest:
+        if p.kind == p.POSITIONAL_ONLY:
+            parts.append(p.name)
+    if parts:
+        parts.append('/')
+    parts += ['%s=None' % p.name for p in reversed(pok)] + ['zq9=None']
+    star = [p for p in rest if p.kind == p.VAR_POSITIONAL]
+    kwo = [p for p in rest if p.kind == p.KEYWORD_ONLY]
+    if star:
+        parts.append('*' + star[0].name)
+    elif kwo:
+        parts.append('*')
+    parts += ['%s=None' % p.name for p in kwo]
+    parts += ['**' + p.name for p in rest if p.kind == p.VAR_KEYWORD]
+    ns = {}
+    exec('def decoy_fn(%s):\n    return None\n' % ', '.join(parts), ns)
+    return ns['decoy_fn']
+
+
 def decorate(f, form, sel):
     """Every decorator object is first used on a twin of the function: decorator objects are reusable, what one
     decoration did must not leak into the next."""
     from sigtools import modifiers
 
     def reuse(deco, g):
+        # first on a function with the same parameter names in another order and one more (what the decorator object
+        # learnt about that function must not show on the next one), then on a twin
+        if g is f:
+            try:
+                deco(decoy(f))
+            except ValueError:
+                pass
         try:
             deco(twin(f) if g is f else g)
         except ValueError:
